@@ -1099,6 +1099,8 @@ pub fn decode_opts(door: Door, b: &[u8], lax: bool, struct_mode: bool) -> RefRes
         Door::Transport(n) => {
             w.transport(n, lax);
         }
+        // raw option areas have no layers (C13 / C17 own their semantics)
+        Door::TcpOpts | Door::NdpOpts => {}
     }
     w.out
 }
